@@ -230,6 +230,16 @@ def check_cases(ctx, cases):
                 ctx.fail(case, "from_dict of the dictionary without its id gives another id than the SHA-1 of the manifest", "id-not-hash-of-manifest:from_dict")
         except Exception as e:
             ctx.fail(case, f"from_dict of the dictionary without its id raises {type(e).__name__}", "from_dict-without-id-raises")
+        import copy as _cp
+        import pickle as _pk
+
+        for how, mk in (("deepcopy", _cp.deepcopy), ("pickle", lambda x: _pk.loads(_pk.dumps(x)))):
+            try:
+                oc = mk(o)
+                if oc.id != want or oc.compute_hash() != want or check_outcome(oc) != check_outcome(o):
+                    ctx.fail(case, f"a {how} of the object does not carry / recompute the same id", "id-not-hash-of-manifest:" + how)
+            except Exception as e:
+                ctx.fail(case, f"{how} of the object raises {type(e).__name__}", "copy-raises:" + how)
         if kind == "directory":
             from swh.model import model as _m
 
